@@ -321,12 +321,12 @@ func ruleR17c(c *Ctx) {
 		for _, b := range fn.Blocks {
 			for _, ins := range b.Instrs {
 				if v, _, ok := storeToField(ins, opKV); ok {
-					if s, ok := constString(v); ok {
+					for _, s := range constStringsThroughParams(c, v, fn, 0) {
 						emitted[s] = ins.Pos()
 					}
 				}
 				if v, _, ok := storeToField(ins, opSet); ok {
-					if s, ok := constString(v); ok {
+					for _, s := range constStringsThroughParams(c, v, fn, 0) {
 						emitted["$"+s] = ins.Pos()
 					}
 				}
@@ -436,4 +436,33 @@ func mentionsTypeParam(t types.Type, depth int) bool {
 		}
 	}
 	return false
+}
+
+
+// constStringsThroughParams: the constant strings v may denote: a constant, or a parameter of a constructor helper
+// whose call sites (in the repository) pass constants (`newKeyValue("$lt", …)`).
+func constStringsThroughParams(c *Ctx, v ssa.Value, fn *ssa.Function, depth int) []string {
+	if s, ok := constString(v); ok {
+		return []string{s}
+	}
+	if depth > 3 {
+		return nil
+	}
+	p, ok := stripLoadOfParamCell(v).(*ssa.Parameter)
+	if !ok {
+		return nil
+	}
+	idx := paramIndex(p)
+	var out []string
+	for _, site := range c.CallersOf(fn) {
+		args := site.Common().Args
+		if idx < 0 || idx >= len(args) || site.Parent() == nil {
+			continue
+		}
+		if strings.HasSuffix(c.Fset.Position(site.Pos()).Filename, "_test.go") {
+			continue
+		}
+		out = append(out, constStringsThroughParams(c, args[idx], site.Parent(), depth+1)...)
+	}
+	return out
 }
